@@ -99,6 +99,7 @@ CHECKS = {
             R("TestC06Attest", 1500, 6000),
             E("TestC06PositionSweep"),
             E("TestC06ChainTime"),
+            R("TestC06Sequence", 300, 2000, ts=4),
             R("TestC06RealDER", 200, 800, ts=4),
         ],
     },
